@@ -26,18 +26,19 @@ func (n *NoWhitespaceComment) Fix(fc *FixCandidate, opts *RuntimeOptions) ([]Fix
 			continue
 		}
 
-		if loc.Column > len(lines[loc.Row-1]) || loc.Column < 1 {
+		// columns are counted in runes, not bytes
+		line := []rune(lines[loc.Row-1])
+
+		if loc.Column > len(line) || loc.Column < 1 {
 			continue
 		}
-
-		line := lines[loc.Row-1]
 
 		// unexpected character at location column, skipping
-		if line[loc.Column-1] != byte('#') {
+		if line[loc.Column-1] != '#' {
 			continue
 		}
 
-		lines[loc.Row-1] = line[0:loc.Column] + " " + line[loc.Column:]
+		lines[loc.Row-1] = string(line[0:loc.Column]) + " " + string(line[loc.Column:])
 		fixed = true
 	}
 
